@@ -307,6 +307,60 @@ fn c06_run(ctx: &Ctx, batch: usize, nb: usize, rep: &mut Report) {
             }
         }
     }
+    // characters that collide in a table indexed by a reduced code (any modulus or mask up to 4096, and the usual
+    // power-of-two strides): pattern [a, d, b] in the text [x, a, a, d, b] and in [x, d, a, d, b] for d = a + m
+    {
+        let (a, b, x) = (0x61u32, 0x62u32, 0x78u32);
+        let ms: Vec<u32> = (1..=4096u32).chain([1 << 13, 1 << 14, 1 << 15, 1 << 16, (1 << 16) + 1, 65_521, 1 << 17, 0x2FF00]).collect();
+        for (mi, &m) in ms.iter().enumerate() {
+            if mi % nb != batch {
+                continue;
+            }
+            let d = a + m;
+            if d > MAX_CHAR || d == b || d == x {
+                continue;
+            }
+            rep.inc("reduced_code_collisions");
+            let pat = [a, d, b];
+            for text in [vec![x, a, a, d, b], vec![x, d, a, d, b], vec![d, a, a, d, b, d], vec![a, d, a, d, d, a, d, b]] {
+                c06_report(rep, "indexof", &text, &pat, &[], 0, 0);
+                c06_report(rep, "contains", &text, &pat, &[], 0, 0);
+                c06_report(rep, "replace_all", &text, &pat, &[x], 0, 0);
+            }
+        }
+    }
+    // self-overlapping texts over three letters: for every pattern of length 5..8 over {a,b,c}, the texts made of a
+    // prefix of the pattern followed by an infix of it (every failure-table entry of a prefix-function search is
+    // exercised, with and without a real occurrence)
+    {
+        let ps: Vec<Vec<u32>> = all_strings(&[97, 98, 99], if ctx.tier == Tier::Thorough { 8 } else { 7 }).into_iter().filter(|p| p.len() >= 5 && p.iter().any(|&c| c == 99) && p.iter().any(|&c| c == 98)).collect();
+        for p in &ps {
+            item += 1;
+            if item % nb != batch {
+                continue;
+            }
+            if item % 256 == batch {
+                beat();
+            }
+            let n = p.len();
+            for i in 1..=n {
+                for lo in 0..n {
+                    for hi in lo + 1..=n {
+                        if i == n && lo == 0 {
+                            continue;
+                        }
+                        let mut t: Vec<u32> = p[..i].to_vec();
+                        t.extend(&p[lo..hi]);
+                        if t.len() < n {
+                            continue;
+                        }
+                        rep.inc("self_overlap_cases");
+                        c06_report(rep, "indexof", &t, p, &[], 0, 0);
+                    }
+                }
+            }
+        }
+    }
     for (alpha, ls, lp, lr) in c06_alphabets(ctx.tier) {
         let ss = all_strings(&alpha, ls);
         let ps = all_strings(&alpha, lp);
@@ -1059,6 +1113,35 @@ fn c09_run(ctx: &Ctx, batch: usize, nb: usize, rep: &mut Report) {
                     c09_viol(rep, pubj(json!({"kind": "order", "a": a, "b": b})), c09_order_case(a, b));
                 }
             }
+        }
+    }
+    // to_int: what lenient number parsers accept (signs, blanks, separators, other scripts' digits) must give -1
+    for s in all_strings(&[0x30, 0x37, 0x2b, 0x2d, 0x20, 0x5f, 0x2e, 0x660, 0xff11], 4) {
+        if !mine(&mut item) {
+            continue;
+        }
+        c09_viol(rep, pubj(json!({"kind": "to_int", "s": s})), c09_to_int_case(&s));
+    }
+    for body in ["7", "42", "2147483647", "2147483648", "3000000000"] {
+        for pre in ["+", "-", " ", "+0", "0+", "00000000000000000000+"] {
+            for suf in ["", " ", "+", "_0"] {
+                if !mine(&mut item) {
+                    continue;
+                }
+                let s: Vec<u32> = format!("{}{}{}", pre, body, suf).chars().map(|c| c as u32).collect();
+                c09_viol(rep, pubj(json!({"kind": "to_int", "s": s})), c09_to_int_case(&s));
+            }
+        }
+    }
+    // to_int: long runs of zeros, alone and in front of small, limit and overflowing values
+    for k in 1..=45usize {
+        for tail in ["", "1", "9", "2147483647", "2147483648", "99999999999"] {
+            if !mine(&mut item) {
+                continue;
+            }
+            let mut s: Vec<u32> = vec![0x30; k];
+            s.extend(tail.chars().map(|c| c as u32));
+            c09_viol(rep, pubj(json!({"kind": "to_int", "s": s})), c09_to_int_case(&s));
         }
     }
     // to_int: mixed strings (0x130, 0x2030, 0x10039: characters whose low byte is an ASCII digit)
